@@ -287,12 +287,23 @@ func (c *collector) accumulator(fn *ssa.Function, v ssa.Value, al *ssa.Alloc, fv
 
 // registrySinks: struct field (owner type name → field) whose marshalled slice must contain the
 // whole registry, and the function that fills it.
-var registrySinks = []struct{ Fn, Owner, Field, What string }{
-	{"(*Document).updateFootnotesFile", "Footnotes", "Footnotes", "word/footnotes.xml ← every registered footnote"},
-	{"(*Document).updateEndnotesFile", "Endnotes", "Endnotes", "word/endnotes.xml ← every registered endnote"},
-	{"(*Document).updateNumberingFile", "Numbering", "AbstractNums", "word/numbering.xml ← every abstract numbering definition"},
-	{"(*Document).updateNumberingFile", "Numbering", "NumberingInstances", "word/numbering.xml ← every numbering instance"},
-	{"(*Document).serializeStyles", "stylesXML", "Styles", "word/styles.xml ← every style of the registry"},
+// The sink is identified by the ELEMENT type of the marshalled slice field ([]*Footnote, []*style.Style …),
+// not by the name of the struct or field that holds it: the wrapper struct may be renamed or moved.
+var registrySinks = []struct{ Fn, Owner, Field, ElemPkg, Elem, What string }{
+	{"(*Document).updateFootnotesFile", "Footnotes", "Footnotes", pkgDoc, "Footnote", "word/footnotes.xml ← every registered footnote"},
+	{"(*Document).updateEndnotesFile", "Endnotes", "Endnotes", pkgDoc, "Endnote", "word/endnotes.xml ← every registered endnote"},
+	{"(*Document).updateNumberingFile", "Numbering", "AbstractNums", pkgDoc, "AbstractNum", "word/numbering.xml ← every abstract numbering definition"},
+	{"(*Document).updateNumberingFile", "Numbering", "NumberingInstances", pkgDoc, "NumInstance", "word/numbering.xml ← every numbering instance"},
+	{"(*Document).serializeStyles", "stylesXML", "Styles", pkgSty, "Style", "word/styles.xml ← every style of the registry"},
+}
+
+// sliceOfPtrTo: t is []*pkg.name (or []pkg.name).
+func sliceOfPtrTo(t types.Type, pkg, name string) bool {
+	sl, ok := t.Underlying().(*types.Slice)
+	if !ok {
+		return false
+	}
+	return typeIs(sl.Elem(), pkg, name)
 }
 
 func rulePartFromRegistry(only ...string) func(r *Run) {
@@ -330,19 +341,15 @@ func rulePartFromRegistry(only ...string) func(r *Run) {
 					return
 				}
 				fv, base := fieldOfAddr(st.Addr)
-				if fv == nil || fv.Name() != s.Field {
+				if fv == nil || !sliceOfPtrTo(fv.Type(), s.ElemPkg, s.Elem) {
 					return
 				}
-				o := fieldOwner(p, fv)
-				on := ""
-				if o != nil {
-					on = o.Obj().Name()
-				} else if st2, ok := derefType(base.Type()).Underlying().(*types.Struct); ok {
-					_ = st2
-					on = s.Owner // function-local struct type (stylesXML)
-				}
-				if on != s.Owner {
-					return
+				// a field of a struct that is being built for marshalling (an XML-tagged field), not
+				// the registry itself
+				if o := fieldOwner(p, fv); o != nil {
+					if on := o.Obj().Name(); on == "FootnoteManager" || on == "NumberingManager" || on == "StyleManager" {
+						return
+					}
 				}
 				pos = st.Pos()
 				if prm, ok := st.Val.(*ssa.Parameter); ok && g != fn {
